@@ -10,37 +10,105 @@ Local Open Scope list_scope.
 Lemma terminals_app a b : terminals (a ++ b) = terminals a ++ terminals b.
 Proof. apply filter_app. Qed.
 
-Lemma run_stmts_no_terminal : forall ss i fin, terminals (snd (run_stmts i ss fin)) = [].
+(* stmt.go's guard plumbing hands the driver's answer to the caller under every switch setting *)
+Lemma stmt_result_transparent sw op drv : stmt_result sw op drv = drv.
+Proof. unfold stmt_result. destruct (real_guard sw), (sw_is_slow sw), (sw_log_sql sw); reflexivity. Qed.
+
+(* hence the body behaves as the Spec presupposes, whatever the switches *)
+Lemma run_stmts_spec sw : forall ss i fin, run_stmts sw i ss fin = spec_stmts i ss fin.
+Proof.
+  induction ss as [|s r IH]; intros i fin; simpl; [reflexivity|].
+  rewrite stmt_result_transparent. unfold drv_answer. destruct (s_fail s); simpl.
+  - destruct (s_react s); try reflexivity. rewrite IH. reflexivity.
+  - rewrite IH. reflexivity.
+Qed.
+
+Lemma run_body_spec sw b : run_body sw b = spec_body b.
+Proof. apply run_stmts_spec. Qed.
+
+Lemma spec_stmts_no_terminal : forall ss i fin, terminals (snd (spec_stmts i ss fin)) = [].
 Proof.
   induction ss as [|s r IH]; intros i fin; simpl; [reflexivity|].
   destruct (s_fail s).
   - destruct (s_react s); try reflexivity.
-    specialize (IH (S i) fin). destruct (run_stmts (S i) r fin) as [o cs]. simpl in *. exact IH.
-  - specialize (IH (S i) fin). destruct (run_stmts (S i) r fin) as [o cs]. simpl in *. exact IH.
+    specialize (IH (S i) fin). destruct (spec_stmts (S i) r fin) as [o cs]. simpl in *. exact IH.
+  - specialize (IH (S i) fin). destruct (spec_stmts (S i) r fin) as [o cs]. simpl in *. exact IH.
 Qed.
 
-Lemma run_body_no_terminal b : terminals (snd (run_body b)) = [].
-Proof. apply run_stmts_no_terminal. Qed.
+Lemma run_body_no_terminal sw b : terminals (snd (run_body sw b)) = [].
+Proof. rewrite run_body_spec. apply spec_stmts_no_terminal. Qed.
+
+(* the body's statements are Exec calls only *)
+Lemma spec_stmts_no_begin : forall ss i fin ok, ~ In (Begin ok) (snd (spec_stmts i ss fin)).
+Proof.
+  induction ss as [|s r IH]; intros i fin ok; simpl; [tauto|].
+  destruct (s_fail s).
+  - destruct (s_react s); simpl; try (intros [H|[]]; discriminate).
+    specialize (IH (S i) fin ok). destruct (spec_stmts (S i) r fin) as [o cs]. simpl in *. intros [H|H]; [discriminate|tauto].
+  - specialize (IH (S i) fin ok). destruct (spec_stmts (S i) r fin) as [o cs]. simpl in *. intros [H|H]; [discriminate|tauto].
+Qed.
+
+(* ---- Begin and database/sql's retry ---- *)
+Lemma terminals_repeat_begin n : terminals (repeat (Begin false) n) = [].
+Proof. induction n; simpl; auto. Qed.
+
+Lemma begin_calls_no_terminal f : terminals (fst (begin_calls f)) = [].
+Proof.
+  unfold begin_calls. destruct (x_begin f) as [| |[]]; try reflexivity.
+  destruct (Nat.ltb (n_begin f) 3); cbn [fst]; [rewrite terminals_app|]; rewrite terminals_repeat_begin; reflexivity.
+Qed.
+
+Lemma strip_repeat n rest : strip_begin_fails (repeat (Begin false) n ++ rest) = strip_begin_fails rest.
+Proof. induction n; simpl; auto. Qed.
+
+(* a successful begin: failed attempts (at most 2, bad connections only), then exactly one Begin true *)
+Lemma begin_calls_ok f : f_begin f = false ->
+  exists n, n <= 2 /\ fst (begin_calls f) = repeat (Begin false) n ++ [Begin true].
+Proof.
+  unfold f_begin, begin_calls. destruct (x_begin f) as [| |[]]; simpl; try discriminate.
+  - intros _. exists 0. split; [lia|reflexivity].
+  - destruct (Nat.ltb_spec (n_begin f) 3); simpl; [|discriminate]. intros _. exists (n_begin f). split; [lia|reflexivity].
+Qed.
+
+(* a failed begin: only failed attempts, 3 of them for a persistently bad connection, 1 otherwise *)
+Lemma begin_calls_fail f : f_begin f = true ->
+  exists n, (n = 1 \/ n = 3) /\ fst (begin_calls f) = repeat (Begin false) n.
+Proof.
+  unfold f_begin, begin_calls. destruct (x_begin f) as [| |[]]; simpl; try discriminate;
+    try (intros _; exists 1; split; [auto|reflexivity]).
+  destruct (Nat.ltb (n_begin f) 3); simpl; [discriminate|]. intros _. exists 3. split; [auto|reflexivity].
+Qed.
+
+Lemma in_repeat_begin n ok : In (Begin ok) (repeat (Begin false) n) -> ok = false.
+Proof. intro H. apply repeat_spec in H. congruence. Qed.
+
+Section TX.
+Variable sw : switches.
 
 (* the terminal call and the result, as a function of the body's outcome and the faults *)
 Definition terminal_of (f : faults) (o : outcome) : call * option err :=
   match o with
-  | ONil => (Commit (negb (f_commit f)), if f_commit f then Some ECommit else None)
-  | OErr e => (Rollback (negb (f_rollback f)), if f_rollback f then Some (EJoin e ERollback) else Some e)
-  | OPanic p => (Rollback (negb (f_rollback f)), if f_rollback f then Some (EPanicJoin p ERollback) else Some (EPanic p))
+  | ONil => (Commit (negb (f_commit f)), if f_commit f then Some (e_commit f) else None)
+  | OErr e => (Rollback (negb (f_rollback f)), if f_rollback f then Some (EJoin e (e_rollback f)) else Some e)
+  | OPanic p => (Rollback (negb (f_rollback f)), if f_rollback f then Some (EPanicJoin p (e_rollback f)) else Some (EPanic p))
   end.
 
 Lemma transact_table f b : f_begin f = false ->
-  transact f b = (snd (terminal_of f (fst (run_body b))),
-                  (Begin true :: snd (run_body b)) ++ [fst (terminal_of f (fst (run_body b)))]).
+  transact sw f b = (snd (terminal_of f (fst (run_body sw b))),
+                     (fst (begin_calls f) ++ snd (run_body sw b)) ++ [fst (terminal_of f (fst (run_body sw b)))]).
 Proof.
   intro Hb. unfold transact, transact_on_conn. rewrite Hb.
-  destruct (run_body b) as [o cs]. simpl.
+  destruct (run_body sw b) as [o cs]. simpl. rewrite <- !app_assoc.
   destruct o; simpl; [destruct (f_commit f)|destruct (f_rollback f)|destruct (f_rollback f)]; reflexivity.
 Qed.
 
-Lemma transact_begin_error f b : f_begin f = true -> transact f b = (Some EBegin, [Begin false]).
-Proof. intro Hb. unfold transact, transact_on_conn. rewrite Hb. reflexivity. Qed.
+Lemma transact_begin_error f b : f_begin f = true ->
+  transact sw f b = (Some (e_begin f), fst (begin_calls f)) /\
+  (forall c, In c (fst (begin_calls f)) -> c = Begin false) /\ transact_runs f = 0.
+Proof.
+  intro Hb. unfold transact, transact_on_conn, transact_runs, runs_on_conn. rewrite Hb. split; [reflexivity|].
+  split; [|reflexivity]. destruct (begin_calls_fail f Hb) as [n [_ E]]. rewrite E. intros c Hc. apply repeat_spec in Hc. exact Hc.
+Qed.
 
 Lemma terminal_of_is_terminal f o : is_terminal (fst (terminal_of f o)) = true.
 Proof. destruct o; reflexivity. Qed.
@@ -54,10 +122,10 @@ Proof.
 Qed.
 
 Lemma transact_ends f b : f_begin f = false ->
-  ends_with (snd (transact f b)) (fst (terminal_of f (fst (run_body b)))).
+  ends_with (snd (transact sw f b)) (fst (terminal_of f (fst (run_body sw b)))).
 Proof.
-  intro Hb. rewrite (transact_table f b Hb). simpl. exists (Begin true :: snd (run_body b)). split; [reflexivity|].
-  unfold terminals. simpl. apply run_body_no_terminal.
+  intro Hb. rewrite (transact_table f b Hb). simpl. exists (fst (begin_calls f) ++ snd (run_body sw b)). split; [reflexivity|].
+  rewrite terminals_app, begin_calls_no_terminal, run_body_no_terminal. reflexivity.
 Qed.
 
 Lemma ends_with_terminals calls t : ends_with calls t -> is_terminal t = true -> terminals calls = [t].
@@ -65,65 +133,83 @@ Proof.
   intros [p [E Hp]] Ht. subst. rewrite terminals_app, Hp. unfold terminals. simpl. rewrite Ht. reflexivity.
 Qed.
 
+Lemma not_ends_with_begins n t : is_terminal t = true -> ~ ends_with (repeat (Begin false) n) t.
+Proof.
+  intros Ht [p [E _]]. assert (Hin : In t (repeat (Begin false) n)) by (rewrite E; apply in_or_app; right; left; reflexivity).
+  apply repeat_spec in Hin. subst. discriminate.
+Qed.
+
 (* result = nil  <=>  the calls end with one successful Commit and contain no other Commit/Rollback *)
 Lemma nil_iff_commit adm f b :
-  fst (transact_ctx adm f b) = None <-> ends_with (snd (transact_ctx adm f b)) (Commit true).
+  fst (transact_ctx sw adm f b) = None <-> ends_with (snd (transact_ctx sw adm f b)) (Commit true).
 Proof.
   unfold transact_ctx. destruct adm; simpl.
   2:{ split; [discriminate|]. intros [p [E _]]. destruct p; discriminate. }
   destruct (f_begin f) eqn:Hb.
-  - rewrite (transact_begin_error f b Hb). simpl. split; [discriminate|].
-    intros [p [E _]]. change [Begin false] with ([] ++ [Begin false]) in E. apply app_inj_tail in E as [_ E]. discriminate.
+  - destruct (transact_begin_error f b Hb) as [E _]. rewrite E. simpl. split; [discriminate|].
+    destruct (begin_calls_fail f Hb) as [n [_ En]]. rewrite En. intro H. exfalso. eapply not_ends_with_begins; [|exact H]. reflexivity.
   - pose proof (transact_ends f b Hb) as He. rewrite (transact_table f b Hb) in *. simpl in *.
     split.
-    + intro Hn. destruct (fst (run_body b)); simpl in *.
+    + intro Hn. destruct (fst (run_body sw b)); simpl in *.
       * destruct (f_commit f); [discriminate|exact He].
       * destruct (f_rollback f); discriminate.
       * destruct (f_rollback f); discriminate.
     + intro Hc. pose proof (ends_with_unique _ _ _ He Hc) as Hu.
-      destruct (fst (run_body b)); simpl in *; try discriminate.
+      destruct (fst (run_body sw b)); simpl in *; try discriminate.
       destruct (f_commit f); [discriminate|reflexivity].
+Qed.
+
+Lemma begun_iff f b : In (Begin true) (snd (transact sw f b)) <-> f_begin f = false.
+Proof.
+  destruct (f_begin f) eqn:Hb.
+  - destruct (transact_begin_error f b Hb) as [E [Hall _]]. rewrite E. simpl. split; [|discriminate].
+    intro Hin. apply Hall in Hin. discriminate.
+  - split; [reflexivity|]. intros _. rewrite (transact_table f b Hb). simpl.
+    destruct (begin_calls_ok f Hb) as [n [_ En]]. rewrite En. rewrite <- !app_assoc.
+    apply in_or_app. right. left. reflexivity.
 Qed.
 
 (* a begun transaction gets exactly one of Commit/Rollback, as its last driver call;
    a transaction that did not begin gets none *)
 Lemma exactly_one_terminal adm f b :
-  (In (Begin true) (snd (transact_ctx adm f b)) ->
-     exists t, is_terminal t = true /\ ends_with (snd (transact_ctx adm f b)) t /\ terminals (snd (transact_ctx adm f b)) = [t]) /\
-  (~ In (Begin true) (snd (transact_ctx adm f b)) -> terminals (snd (transact_ctx adm f b)) = []).
+  (In (Begin true) (snd (transact_ctx sw adm f b)) ->
+     exists t, is_terminal t = true /\ ends_with (snd (transact_ctx sw adm f b)) t /\ terminals (snd (transact_ctx sw adm f b)) = [t]) /\
+  (~ In (Begin true) (snd (transact_ctx sw adm f b)) -> terminals (snd (transact_ctx sw adm f b)) = []).
 Proof.
   unfold transact_ctx. destruct adm; simpl.
   2:{ split; [intros []|reflexivity]. }
   destruct (f_begin f) eqn:Hb.
-  - rewrite (transact_begin_error f b Hb). simpl. split; [intros [E|[]]; discriminate|reflexivity].
+  - split.
+    + intro Hin. apply begun_iff in Hin. congruence.
+    + intros _. destruct (transact_begin_error f b Hb) as [E _]. rewrite E. simpl. apply begin_calls_no_terminal.
   - pose proof (transact_ends f b Hb) as He. split.
     + intros _. eexists. split; [apply terminal_of_is_terminal|]. split; [exact He|].
       apply ends_with_terminals; [exact He|apply terminal_of_is_terminal].
-    + intro Hn. exfalso. apply Hn. rewrite (transact_table f b Hb). simpl. left. reflexivity.
+    + intro Hn. exfalso. apply Hn. apply begun_iff. exact Hb.
 Qed.
 
 Lemma commit_iff_body_nil f b : f_begin f = false ->
-  (fst (run_body b) = ONil <-> exists ok, In (Commit ok) (snd (transact f b))) /\
-  (fst (run_body b) = ONil -> fst (transact f b) = if f_commit f then Some ECommit else None) /\
-  (fst (run_body b) <> ONil -> exists ok, terminals (snd (transact f b)) = [Rollback ok]).
+  (fst (run_body sw b) = ONil <-> exists ok, In (Commit ok) (snd (transact sw f b))) /\
+  (fst (run_body sw b) = ONil -> fst (transact sw f b) = if f_commit f then Some (e_commit f) else None) /\
+  (fst (run_body sw b) <> ONil -> exists ok, terminals (snd (transact sw f b)) = [Rollback ok]).
 Proof.
   intro Hb. pose proof (transact_ends f b Hb) as He.
   pose proof (ends_with_terminals _ _ He (terminal_of_is_terminal _ _)) as Ht.
   rewrite (transact_table f b Hb) in *. simpl in *. split; [split|split].
-  - intro Ho. rewrite Ho. simpl. exists (negb (f_commit f)). right. apply in_or_app. right. left. reflexivity.
-  - intros [ok Hin]. assert (Hin' : In (Commit ok) (terminals ((Begin true :: snd (run_body b)) ++ [fst (terminal_of f (fst (run_body b)))]))).
+  - intro Ho. rewrite Ho. simpl. exists (negb (f_commit f)). apply in_or_app. right. left. reflexivity.
+  - intros [ok Hin]. assert (Hin' : In (Commit ok) (terminals ((fst (begin_calls f) ++ snd (run_body sw b)) ++ [fst (terminal_of f (fst (run_body sw b)))]))).
     { unfold terminals. apply filter_In. split; [exact Hin|reflexivity]. }
-    simpl in Hin'. rewrite Ht in Hin'. destruct Hin' as [E|[]].
-    destruct (fst (run_body b)); simpl in E; try discriminate. reflexivity.
+    rewrite Ht in Hin'. destruct Hin' as [E|[]].
+    destruct (fst (run_body sw b)); simpl in E; try discriminate. reflexivity.
   - intro Ho. rewrite Ho. reflexivity.
-  - intro Ho. destruct (fst (run_body b)) eqn:E; [contradiction| |]; simpl in Ht; eexists; exact Ht.
+  - intro Ho. destruct (fst (run_body sw b)) eqn:E; [contradiction| |]; simpl in Ht; eexists; exact Ht.
 Qed.
 
-Lemma panic_rolls_back_and_reports f b p : f_begin f = false -> fst (run_body b) = OPanic p ->
-  fst (transact f b) <> None /\
-  terminals (snd (transact f b)) = [Rollback (negb (f_rollback f))] /\
-  ends_with (snd (transact f b)) (Rollback (negb (f_rollback f))) /\
-  fst (transact f b) = Some (if f_rollback f then EPanicJoin p ERollback else EPanic p).
+Lemma panic_rolls_back_and_reports f b p : f_begin f = false -> fst (run_body sw b) = OPanic p ->
+  fst (transact sw f b) <> None /\
+  terminals (snd (transact sw f b)) = [Rollback (negb (f_rollback f))] /\
+  ends_with (snd (transact sw f b)) (Rollback (negb (f_rollback f))) /\
+  fst (transact sw f b) = Some (if f_rollback f then EPanicJoin p (e_rollback f) else EPanic p).
 Proof.
   intros Hb Ho. pose proof (transact_ends f b Hb) as He.
   pose proof (ends_with_terminals _ _ He (terminal_of_is_terminal _ _)) as Ht.
@@ -131,10 +217,10 @@ Proof.
   repeat split; try assumption; destruct (f_rollback f); try discriminate; reflexivity.
 Qed.
 
-Lemma error_passthrough f b e : f_begin f = false -> fst (run_body b) = OErr e ->
-  (fst (transact f b) = Some e \/ (f_rollback f = true /\ fst (transact f b) = Some (EJoin e ERollback))) /\
-  (f_rollback f = false -> fst (transact f b) = Some e) /\
-  terminals (snd (transact f b)) = [Rollback (negb (f_rollback f))].
+Lemma error_passthrough f b e : f_begin f = false -> fst (run_body sw b) = OErr e ->
+  (fst (transact sw f b) = Some e \/ (f_rollback f = true /\ fst (transact sw f b) = Some (EJoin e (e_rollback f)))) /\
+  (f_rollback f = false -> fst (transact sw f b) = Some e) /\
+  terminals (snd (transact sw f b)) = [Rollback (negb (f_rollback f))].
 Proof.
   intros Hb Ho. pose proof (transact_ends f b Hb) as He.
   pose proof (ends_with_terminals _ _ He (terminal_of_is_terminal _ _)) as Ht.
@@ -142,24 +228,53 @@ Proof.
   repeat split; try assumption; destruct (f_rollback f); auto; discriminate.
 Qed.
 
+(* the body is entered once by a begun transaction and never otherwise *)
+Lemma body_runs_once adm f b :
+  transact_ctx_runs adm f = (if existsb (call_eqb (Begin true)) (snd (transact_ctx sw adm f b)) then 1 else 0).
+Proof.
+  unfold transact_ctx_runs, transact_ctx. destruct adm; [|reflexivity].
+  unfold transact_runs, runs_on_conn. destruct (f_begin f) eqn:Hb.
+  - destruct (existsb (call_eqb (Begin true)) (snd (transact sw f b))) eqn:E; [|reflexivity].
+    apply existsb_exists in E as [c [Hin Hc]]. destruct c; simpl in Hc; try discriminate. destruct ok; [|discriminate].
+    apply begun_iff in Hin. congruence.
+  - assert (Hin : In (Begin true) (snd (transact sw f b))) by (apply begun_iff; exact Hb).
+    replace (existsb (call_eqb (Begin true)) (snd (transact sw f b))) with true; [reflexivity|].
+    symmetry. apply existsb_exists. exists (Begin true). split; [exact Hin|reflexivity].
+Qed.
+
 (* refinement: what the model does is allowed by the Spec's outcome table (the checker run on observations) *)
+Lemma fkind_eqb_refl k : fkind_eqb k k = true.
+Proof. destruct k; reflexivity. Qed.
 Lemma err_eqb_refl e : err_eqb e e = true.
-Proof. induction e; simpl; rewrite ?Nat.eqb_refl, ?IHe1, ?IHe2, ?IHe; reflexivity. Qed.
+Proof. induction e; simpl; rewrite ?Nat.eqb_refl, ?fkind_eqb_refl, ?IHe1, ?IHe2, ?IHe; reflexivity. Qed.
 Lemma call_eqb_refl c : call_eqb c c = true.
 Proof. destruct c; simpl; rewrite ?Nat.eqb_refl; destruct ok; reflexivity. Qed.
 Lemma calls_eqb_refl l : list_eqb call_eqb l l = true.
 Proof. induction l; simpl; [reflexivity|]. rewrite call_eqb_refl, IHl. reflexivity. Qed.
 
-Lemma tx_refines f b : tx_allowed f b (fst (transact f b)) (snd (transact f b)) None = true.
+Lemma tx_refines f b :
+  tx_allowed f b (fst (transact sw f b)) (snd (transact sw f b)) None (transact_runs f) = true.
 Proof.
-  unfold tx_allowed. destruct (f_begin f) eqn:Hb.
-  - rewrite (transact_begin_error f b Hb). destruct (run_body b). reflexivity.
-  - rewrite (transact_table f b Hb). destruct (run_body b) as [o cs]. cbn [fst snd].
-    destruct o; cbn [fst snd terminal_of]; rewrite <- app_comm_cons, calls_eqb_refl; cbn [andb].
-    + destruct (f_commit f); reflexivity.
+  unfold tx_allowed, transact_runs, runs_on_conn. destruct (f_begin f) eqn:Hb.
+  - destruct (transact_begin_error f b Hb) as [E _]. rewrite E. destruct (spec_body b). cbn [fst snd].
+    destruct (begin_calls_fail f Hb) as [n [_ En]]. rewrite En.
+    rewrite <- (app_nil_r (repeat (Begin false) n)), strip_repeat. reflexivity.
+  - rewrite (transact_table f b Hb). rewrite run_body_spec. destruct (spec_body b) as [o cs]. cbn [fst snd].
+    destruct (begin_calls_ok f Hb) as [n [_ En]]. rewrite En. rewrite <- !app_assoc, strip_repeat.
+    cbn [app strip_begin_fails Nat.eqb andb].
+    destruct o; cbn [fst snd terminal_of]; rewrite calls_eqb_refl; cbn [andb].
+    + destruct (f_commit f); cbn [option_eqb]; rewrite ?err_eqb_refl; reflexivity.
     + destruct (f_rollback f); cbn [option_eqb andb orb]; rewrite ?err_eqb_refl; cbn [orb andb]; rewrite ?orb_true_r; reflexivity.
     + destruct (f_rollback f); reflexivity.
 Qed.
+
+(* sqlc.CachedConn adds nothing: same result, same driver calls, same number of body executions *)
+Lemma wrapper_transparent adm f b :
+  cached_transact_ctx sw adm f b = transact_ctx sw adm f b /\
+  cached_transact_ctx_runs adm f = transact_ctx_runs adm f.
+Proof. split; reflexivity. Qed.
+
+End TX.
 
 (* ===================================================================== part 2: rows -> destination *)
 
